@@ -110,85 +110,81 @@ Proof.
   change (length (byte_bits b)) with 8%nat. cbn [length]. lia.
 Qed.
 
-Lemma cpp_unpack_1d_None : forall bs,
-  cpp_unpack_1d None bs = Some (map b2z (unpack None bs)).
+Lemma map_repeat_ : forall (A B : Type) (f : A -> B) x n,
+  map f (repeat x n) = repeat (f x) n.
+Proof. induction n; cbn [repeat map]; [reflexivity|]. now rewrite IHn. Qed.
+
+Lemma firstn_min_len : forall (A : Type) k (l : list A),
+  firstn k l = firstn (Nat.min k (length l)) l.
 Proof.
-  intros bs. unfold cpp_unpack_1d, unpack.
-  replace (8 * zlen bs mod 8 =? 0) with true by (symmetry; apply Z.eqb_eq; lia).
-  rewrite Z.ltb_irrefl. cbn [negb].
-  rewrite firstn_all2; [reflexivity|].
-  rewrite unpack_all_length. unfold zlen. lia.
+  intros A k l. destruct (le_lt_dec k (length l)) as [L|L].
+  - now rewrite Nat.min_l by exact L.
+  - rewrite Nat.min_r by lia. rewrite !firstn_all2 by lia. reflexivity.
 Qed.
 
-Lemma cpp_unpack_1d_Some_val : forall n bs u,
-  cpp_unpack_1d (Some n) bs = Some u -> u = map b2z (unpack (Some n) bs).
+(* the copy loop: min(8, n) values per input byte, zeros once the input is exhausted,
+   is np.unpackbits(count = n) *)
+Lemma cpp_unpack_loop_spec : forall fuel n bs, n <= Z.of_nat fuel ->
+  cpp_unpack_loop fuel n bs = map b2z (unpack (Some n) bs).
 Proof.
-  intros n bs u. unfold cpp_unpack_1d, unpack.
-  destruct (negb (n mod 8 =? 0)); [discriminate|].
-  destruct (8 * zlen bs <? n) eqn:E; [discriminate|].
-  intros H. injection H as <-.
-  apply Z.ltb_ge in E.
-  replace (Z.to_nat n - length (unpack_all bs))%nat with O.
-  - cbn [repeat]. now rewrite app_nil_r.
-  - rewrite unpack_all_length. unfold zlen in E. lia.
+  induction fuel as [|f IH]; intros n bs H.
+  - cbn [cpp_unpack_loop]. unfold unpack. replace (Z.to_nat n) with O by lia. reflexivity.
+  - cbn [cpp_unpack_loop]. destruct (Z.leb_spec n 0) as [L|L].
+    + unfold unpack. replace (Z.to_nat n) with O by lia. reflexivity.
+    + rewrite IH by lia. unfold unpack.
+      replace (Z.to_nat (n - 8)) with (Z.to_nat n - 8)%nat by lia.
+      replace (Z.to_nat (Z.min 8 n)) with (Nat.min (Z.to_nat n) 8) by lia.
+      set (k := Z.to_nat n).
+      destruct bs as [|b t].
+      * cbn [tl unpack_all flat_map length].
+        rewrite !firstn_nil, !Nat.sub_0_r. cbn [app].
+        rewrite !map_repeat_, firstn_repeat_min, <- repeat_app. cbn [b2z].
+        f_equal. lia.
+      * cbn [tl]. change (unpack_all (b :: t)) with (byte_bits b ++ unpack_all t).
+        rewrite firstn_app, app_length. change (length (byte_bits b)) with 8%nat.
+        replace (k - (8 + length (unpack_all t)))%nat
+          with (k - 8 - length (unpack_all t))%nat by lia.
+        rewrite <- app_assoc, (map_app b2z (firstn k (byte_bits b))), firstn_map.
+        f_equal. f_equal. rewrite (firstn_min_len _ k). reflexivity.
 Qed.
 
-Theorem K2_unpack_1d : forall nf bs u, bytes bs ->
-  cpp_unpack_1d nf bs = Some u -> u = map b2z (unpack nf bs).
+Theorem K2_unpack_1d : forall nf bs,
+  match nf with Some n => 0 <= n | None => True end ->
+  cpp_unpack_1d nf bs = Some (map b2z (unpack nf bs)).
 Proof.
-  intros [n|] bs u _ H.
-  - now apply cpp_unpack_1d_Some_val.
-  - rewrite cpp_unpack_1d_None in H. now injection H.
+  intros [n|] bs H; unfold cpp_unpack_1d.
+  - destruct (Z.ltb_spec n 0) as [L|L]; [lia|].
+    rewrite cpp_unpack_loop_spec by lia. reflexivity.
+  - destruct (Z.ltb_spec (8 * zlen bs) 0) as [L|L]; [unfold zlen in L; lia|].
+    rewrite cpp_unpack_loop_spec by lia. f_equal. f_equal.
+    unfold unpack. rewrite firstn_all2 by (rewrite unpack_all_length; unfold zlen; lia).
+    replace (_ - _)%nat with O by (rewrite unpack_all_length; unfold zlen; lia).
+    apply app_nil_r.
 Qed.
 
-Theorem K2_unpack_1d_defined_None : forall bs, exists u, cpp_unpack_1d None bs = Some u.
-Proof. intros bs. eexists. apply cpp_unpack_1d_None. Qed.
-
-Theorem K2_unpack_1d_defined_Some : forall n bs, 0 <= n ->
-  ((exists u, cpp_unpack_1d (Some n) bs = Some u) <-> (n mod 8 = 0 /\ n <= 8 * zlen bs)).
+(* a negative feature count: the allocation throws *)
+Theorem K2_unpack_1d_undefined : forall n bs, n < 0 -> cpp_unpack_1d (Some n) bs = None.
 Proof.
-  intros n bs _. unfold cpp_unpack_1d.
-  destruct (Z.eqb_spec (n mod 8) 0) as [E|E]; cbn [negb].
-  - destruct (Z.ltb_spec (8 * zlen bs) n) as [L|L].
-    + split; [intros [u Hu]; discriminate|intros [_ H]; lia].
-    + split; [intros _; split; [exact E|exact L]|intros _; eexists; reflexivity].
-  - split; [intros [u Hu]; discriminate|intros [H _]; contradiction].
+  intros n bs H. unfold cpp_unpack_1d. destruct (Z.ltb_spec n 0); [reflexivity|lia].
 Qed.
 
 Definition unpack_rows (nf : option Z) (X : list (list Z)) : list (list Z) :=
   map (fun r => map b2z (unpack nf r)) X.
 
-Theorem K2_unpack_2d : forall nf X U, Forall bytes X ->
-  cpp_unpack_2d nf X = Some U -> U = unpack_rows nf X.
+Theorem K2_unpack_2d : forall nf X,
+  match nf with Some n => 0 <= n | None => True end ->
+  cpp_unpack_2d nf X = Some (unpack_rows nf X).
 Proof.
-  intros nf X U HX. revert U.
-  induction HX as [|r X Hr _ IH]; intros U H; cbn [cpp_unpack_2d fold_right] in H.
-  - now injection H as <-.
-  - fold (cpp_unpack_2d nf X) in H.
-    destruct (cpp_unpack_1d nf r) as [x|] eqn:Er; [|discriminate].
-    destruct (cpp_unpack_2d nf X) as [l|]; [|discriminate].
-    injection H as <-. cbn [unpack_rows map]. f_equal.
-    + now apply K2_unpack_1d.
-    + now apply IH.
+  intros nf X H. induction X as [|r X IH]; [reflexivity|].
+  cbn [cpp_unpack_2d fold_right]. fold (cpp_unpack_2d nf X).
+  rewrite (K2_unpack_1d nf r H), IH. reflexivity.
 Qed.
 
-(* definedness of the 2d version: every row must be defined *)
-Theorem K2_unpack_2d_defined : forall nf X,
-  (exists U, cpp_unpack_2d nf X = Some U) <->
-  Forall (fun r => exists u, cpp_unpack_1d nf r = Some u) X.
+Theorem K2_unpack_2d_undefined : forall n X, n < 0 -> X <> [] ->
+  cpp_unpack_2d (Some n) X = None.
 Proof.
-  intros nf X. induction X as [|r X IH]; cbn [cpp_unpack_2d fold_right].
-  - split; [constructor|intros _; eexists; reflexivity].
-  - fold (cpp_unpack_2d nf X).
-    destruct (cpp_unpack_1d nf r) as [x|] eqn:Er.
-    + destruct (cpp_unpack_2d nf X) as [l|].
-      * split; [|intros _; eexists; reflexivity].
-        intros _. constructor; [eexists; exact Er|]. apply IH. eexists; reflexivity.
-      * split; [intros [U HU]; discriminate|].
-        intros H. inversion H as [|? ? _ H2]; subst. apply IH in H2.
-        destruct H2 as [U HU]. discriminate.
-    + split; [intros [U HU]; discriminate|].
-      intros H. inversion H as [|? ? [u Hu] _]; subst. congruence.
+  intros n [|r X] H Hne; [congruence|].
+  cbn [cpp_unpack_2d fold_right]. now rewrite K2_unpack_1d_undefined.
 Qed.
 
 (* ------------------------------------------------------------------ *)
@@ -253,89 +249,96 @@ Proof.
   apply (IH (S k)); [exact Hl'|lia|lia].
 Qed.
 
-Lemma cpp_pack_byte_bits : forall l, Forall is01 l -> (length l <= 8)%nat ->
-  cpp_pack_byte l = bits_val (map nz l).
+Lemma Forall_is01_b2z : forall bl, Forall is01 (map b2z bl).
 Proof.
-  intros l Hl Hn. unfold cpp_pack_byte, bits_val.
-  apply (cpp_pack_fold l 0 0 Hl); [lia|]. change (2 ^ Z.of_nat 0) with 1. lia.
+  intros bl. apply Forall_map, Forall_forall. intros b _. unfold is01.
+  destruct b; cbn [b2z]; lia.
 Qed.
 
-Lemma cpp_pack_loop_aux : forall f vals, Forall is01 vals ->
-  zlen vals mod 8 = 0 ->
+Lemma map_nz_b2z : forall bl, map nz (map b2z bl) = bl.
+Proof.
+  induction bl as [|b bl IH]; [reflexivity|]. cbn [map]. rewrite IH. now destruct b.
+Qed.
+
+Lemma firstn_firstn_app : forall (A : Type) k (x r : list A),
+  firstn k (firstn k x ++ r) = firstn k (x ++ r).
+Proof.
+  intros A k x r. rewrite !firstn_app, firstn_firstn, Nat.min_id, firstn_length.
+  destruct (le_lt_dec k (length x)) as [L|L].
+  - rewrite Nat.min_l by exact L. replace (k - length x)%nat with O by lia.
+    now rewrite Nat.sub_diag.
+  - now rewrite Nat.min_r by lia.
+Qed.
+
+(* one output byte: 8 x (shift, or in (value != 0)), zeros past the end = numpy's byte *)
+Lemma cpp_pack_byte_byte_of : forall l, cpp_pack_byte (firstn 8 l) = byte_of (map nz l).
+Proof.
+  intros l. unfold cpp_pack_byte, byte_of, bits_val.
+  set (bl := firstn 8 (map nz l ++ repeat false 8)).
+  assert (E : firstn 8 (map (fun v => b2z (negb (v =? 0))) (firstn 8 l) ++ repeat 0 8)
+              = map b2z bl).
+  { unfold bl. rewrite <- (firstn_map b2z), map_app, map_map, map_repeat_. cbn [b2z].
+    change (fun x => b2z (nz x)) with (fun v => b2z (negb (v =? 0))).
+    rewrite <- (firstn_map (fun v => b2z (negb (v =? 0))) 8 l). apply firstn_firstn_app. }
+  rewrite E.
+  rewrite (cpp_pack_fold (map b2z bl) 0 0).
+  - now rewrite map_nz_b2z.
+  - apply Forall_is01_b2z.
+  - rewrite map_length. unfold bl. rewrite byte_chunk_length. lia.
+  - change (2 ^ Z.of_nat 0) with 1. lia.
+Qed.
+
+Lemma cpp_pack_loop_aux : forall f vals,
   cpp_pack_loop f vals = pack_aux f (map nz vals).
 Proof.
-  induction f as [|f IH]; intros vals H01 Hm; [reflexivity|].
+  induction f as [|f IH]; intros vals; [reflexivity|].
   destruct vals as [|v t]; [reflexivity|].
-  set (l := v :: t) in *.
-  assert (Hl : (8 <= length l)%nat).
-  { assert (1 <= length l)%nat by (subst l; cbn [length]; lia).
-    unfold zlen in Hm. lia. }
+  set (l := v :: t).
   assert (E1 : cpp_pack_loop (S f) l
                = cpp_pack_byte (firstn 8 l) :: cpp_pack_loop f (skipn 8 l))
     by reflexivity.
   assert (E2 : pack_aux (S f) (map nz l)
                = byte_of (map nz l) :: pack_aux f (skipn 8 (map nz l)))
     by reflexivity.
-  rewrite E1, E2. clearbody l. f_equal.
-  - rewrite cpp_pack_byte_bits;
-      [|now apply Forall_firstn|rewrite firstn_length; lia].
-    unfold byte_of. rewrite firstn_app, map_length.
-    replace (8 - length l)%nat with O by lia.
-    rewrite firstn_O, app_nil_r, firstn_map. reflexivity.
-  - rewrite skipn_map. apply IH; [now apply Forall_skipn|].
-    unfold zlen in *. rewrite skipn_length. lia.
+  rewrite E1, E2. clearbody l.
+  rewrite cpp_pack_byte_byte_of, skipn_map, IH. reflexivity.
 Qed.
 
-(* core lemma: the C++ packing loop is np.packbits on 0/1 values, whole bytes *)
-Lemma cpp_pack_loop_pack : forall vals, Forall is01 vals -> zlen vals mod 8 = 0 ->
+(* core lemma: the C++ packing loop is np.packbits, for any values and any length *)
+Lemma cpp_pack_loop_pack : forall vals,
   cpp_pack_loop (length vals) vals = pack (map nz vals).
-Proof.
-  intros vals H Hm. unfold pack. rewrite map_length. now apply cpp_pack_loop_aux.
-Qed.
+Proof. intros vals. unfold pack. rewrite map_length. apply cpp_pack_loop_aux. Qed.
 
-Lemma centroid_vals_01 : forall ls n, okls n ls -> Forall is01 (centroid_vals ls n).
-Proof.
-  intros ls n H. unfold centroid_vals.
-  destruct (Z.leb_spec n 1) as [L|L]; apply Forall_map.
-  - eapply Forall_impl; [|exact H]. cbv beta. intros k Hk.
-    rewrite Z.max_r in Hk by lia.
-    rewrite wrap8_small by lia. unfold is01. lia.
-  - apply Forall_forall. intros k _. unfold is01.
-    destruct (fge _ _); cbn [b2z]; lia.
-Qed.
-
-Theorem K3b_centroid_packed : forall ls n, 0 <= n < 2 ^ 63 -> okls n ls ->
-  zlen ls mod 8 = 0 ->
+(* no hypothesis at all is needed: the [n <= 1] branch does not look at [n], and above it
+   [n] is positive *)
+Lemma cpp_centroid_packed_total : forall ls n,
   cpp_centroid ls n true = Some (centroid_packed ls n).
 Proof.
-  intros ls n [Hn _] Hok Hm.
-  pose proof (cpp_centroid_vals ls n Hn) as Hv.
-  unfold cpp_centroid in *. cbn [negb] in *. injection Hv as Hv. rewrite Hv.
-  destruct (Z.eqb_spec (zlen ls mod 8) 0) as [_|N]; [|contradiction]. cbn [negb].
-  f_equal. unfold centroid_packed, centroid_fpv.
-  apply cpp_pack_loop_pack.
-  - now apply centroid_vals_01.
-  - replace (zlen (centroid_vals ls n)) with (zlen ls); [exact Hm|].
-    unfold zlen, centroid_vals. destruct (n <=? 1); now rewrite map_length.
+  intros ls n. unfold cpp_centroid, centroid_packed, centroid_fpv, centroid_vals.
+  cbn [negb]. f_equal.
+  destruct (Z.leb_spec n 1) as [L|L].
+  - apply cpp_pack_loop_pack.
+  - rewrite Zs2f_nonneg by lia. apply cpp_pack_loop_pack.
 Qed.
 
-Theorem K3c_centroid_packed_undefined : forall ls n, zlen ls mod 8 <> 0 ->
-  cpp_centroid ls n true = None.
-Proof.
-  intros ls n H. unfold cpp_centroid. cbn [negb].
-  destruct (Z.eqb_spec (zlen ls mod 8) 0) as [E|_]; [contradiction|reflexivity].
-Qed.
+Theorem K3b_centroid_packed : forall ls n, 0 <= n < 2 ^ 63 ->
+  Forall (fun k => 0 <= k < 2 ^ 64) ls ->
+  cpp_centroid ls n true = Some (centroid_packed ls n).
+Proof. intros ls n _ _. apply cpp_centroid_packed_total. Qed.
 
-(* for n <= 1 the packed form really needs 0/1 sums: C++ ors the raw value in, numpy
-   packs (value <> 0) *)
-Example K3c_centroid_packed_needs_01 :
-  cpp_centroid [2;0;0;0;0;0;0;0] 1 true <> Some (centroid_packed [2;0;0;0;0;0;0;0] 1).
-Proof. vm_compute. discriminate. Qed.
-
-Example K3c_centroid_packed_needs_01_values :
-  cpp_centroid [2;0;0;0;0;0;0;0] 1 true = Some [0] /\
+(* the former counterexamples (a non-binary sum with n <= 1; a length that is not a multiple
+   of 8) now agree *)
+Example K3b_centroid_packed_nonbinary :
+  cpp_centroid [2;0;0;0;0;0;0;0] 1 true = Some (centroid_packed [2;0;0;0;0;0;0;0] 1) /\
   centroid_packed [2;0;0;0;0;0;0;0] 1 = [128].
 Proof. vm_compute. split; reflexivity. Qed.
+
+Example K3b_centroid_packed_len5 :
+  cpp_centroid [3;0;1;0;7] 1 true = Some (centroid_packed [3;0;1;0;7] 1) /\
+  centroid_packed [3;0;1;0;7] 1 = [168] /\
+  cpp_centroid [3;0;1;0;3] 4 true = Some (centroid_packed [3;0;1;0;3] 4) /\
+  centroid_packed [3;0;1;0;3] 4 = [136].
+Proof. vm_compute. repeat split; reflexivity. Qed.
 
 (* ------------------------------------------------------------------ *)
 (* K4. isim                                                             *)
@@ -605,47 +608,47 @@ Proof. intros. apply sim_packed_precalc_not_nan. Qed.
 
 Definition rows_ok (w : nat) (Y : list (list Z)) : Prop :=
   Forall (fun r => bytes r /\ length r = w) Y.
+(* every feature count whose packed width is the row width (not only the multiples of 8) *)
 Definition nf_ok (w : nat) (nf : option Z) : Prop :=
-  nf = None \/ nf = Some (8 * Z.of_nat w).
+  nf = None \/ exists n, nf = Some n /\ 0 <= n /\ (n + 7) / 8 = Z.of_nat w.
+(* the unpacked width *)
+Definition unpacked_width (w : nat) (nf : option Z) : nat :=
+  match nf with Some n => Z.to_nat n | None => (8 * w)%nat end.
 
 (* --- unpacking the rows --- *)
 
-Lemma unpack_row_defined : forall nf w r, nf_ok w nf -> length r = w ->
-  cpp_unpack_1d nf r = Some (map b2z (unpack nf r)).
-Proof.
-  intros nf w r [-> | ->] L; [apply cpp_unpack_1d_None|].
-  destruct (proj2 (K2_unpack_1d_defined_Some (8 * Z.of_nat w) r ltac:(lia))) as [u Hu].
-  - unfold zlen. rewrite L. lia.
-  - rewrite Hu. f_equal. now apply cpp_unpack_1d_Some_val.
-Qed.
+Lemma nf_ok_nonneg : forall w nf, nf_ok w nf ->
+  match nf with Some n => 0 <= n | None => True end.
+Proof. intros w nf [-> | (n & -> & H & _)]; [exact I|exact H]. Qed.
 
-Lemma cpp_unpack_2d_rows : forall nf w Y, nf_ok w nf -> rows_ok w Y ->
+Lemma cpp_unpack_2d_rows : forall nf w Y, nf_ok w nf ->
   cpp_unpack_2d nf Y = Some (unpack_rows nf Y).
+Proof. intros nf w Y Hnf. apply K2_unpack_2d. now apply (nf_ok_nonneg w). Qed.
+
+Lemma unpack_length : forall nf w r, length r = w ->
+  length (unpack nf r) = unpacked_width w nf.
 Proof.
-  intros nf w Y Hnf HY.
-  induction HY as [|r Y [_ L] _ IH]; [reflexivity|].
-  cbn [cpp_unpack_2d fold_right]. fold (cpp_unpack_2d nf Y).
-  rewrite (unpack_row_defined nf w r Hnf L), IH. reflexivity.
+  intros [n|] w r L; unfold unpack, unpacked_width.
+  - rewrite app_length, firstn_length, repeat_length. lia.
+  - rewrite unpack_all_length. lia.
 Qed.
 
-Lemma unpack_length : forall nf w r, nf_ok w nf -> length r = w ->
-  length (unpack nf r) = (8 * w)%nat.
+Lemma unpacked_width_packed : forall w nf, nf_ok w nf ->
+  Nat.div (unpacked_width w nf + 7) 8 = w.
 Proof.
-  intros nf w r [-> | ->] L; unfold unpack.
-  - rewrite unpack_all_length. lia.
-  - rewrite app_length, firstn_length, repeat_length, unpack_all_length. lia.
+  intros w nf [-> | (n & -> & H & E)]; unfold unpacked_width; lia.
 Qed.
 
 Lemma unpack_rows_01 : forall nf Y, Forall (Forall is01) (unpack_rows nf Y).
 Proof.
   intros nf Y. unfold unpack_rows. apply Forall_map, Forall_forall. intros r _.
-  apply Forall_map, Forall_forall. intros b _. unfold is01. destruct b; cbn [b2z]; lia.
+  apply Forall_is01_b2z.
 Qed.
 
-Lemma unpack_rows_lengths : forall nf w Y, nf_ok w nf -> rows_ok w Y ->
-  Forall (fun r => length r = (8 * w)%nat) (unpack_rows nf Y).
+Lemma unpack_rows_lengths : forall nf w Y, rows_ok w Y ->
+  Forall (fun r => length r = unpacked_width w nf) (unpack_rows nf Y).
 Proof.
-  intros nf w Y Hnf HY. unfold unpack_rows. apply Forall_map.
+  intros nf w Y HY. unfold unpack_rows. apply Forall_map.
   eapply Forall_impl; [|exact HY]. cbv beta. intros r [_ L].
   rewrite map_length. now apply unpack_length.
 Qed.
@@ -695,32 +698,50 @@ Proof.
     eapply Forall_impl; [|exact F2]. cbv beta. lia.
 Qed.
 
-Lemma colsum_len : forall U acc, Forall (fun r => length r = length acc) U ->
-  length (fold_left (fun acc r => map2 Z.add acc r) U acc) = length acc.
+Lemma colsum_len_gen : forall (f : Z -> Z -> Z) U acc,
+  Forall (fun r => length r = length acc) U ->
+  length (fold_left (fun acc r => map2 f acc r) U acc) = length acc.
 Proof.
-  induction U as [|r U IH]; intros acc H; [reflexivity|].
+  intros f. induction U as [|r U IH]; intros acc H; [reflexivity|].
   inversion H as [|? ? Hr HU]; subst. cbn [fold_left].
-  assert (L : length (map2 Z.add acc r) = length acc)
+  assert (L : length (map2 f acc r) = length acc)
     by (apply map2_length_eq; now rewrite Hr).
   rewrite IH; [exact L|]. now rewrite L.
 Qed.
 
+Lemma colsum_len : forall U acc, Forall (fun r => length r = length acc) U ->
+  length (fold_left (fun acc r => map2 Z.add acc r) U acc) = length acc.
+Proof. exact (colsum_len_gen Z.add). Qed.
+
 Lemma Forall_repeat : forall (A : Type) (P : A -> Prop) x n, P x -> Forall P (repeat x n).
 Proof. intros A P x n H. induction n; cbn [repeat]; constructor; assumption. Qed.
 
-Lemma colsum_facts : forall nf w Y, nf_ok w nf -> rows_ok w Y -> Y <> [] ->
+Lemma unpack_rows_width : forall nf w Y, rows_ok w Y -> Y <> [] ->
+  rows_width (unpack_rows nf Y) = unpacked_width w nf.
+Proof.
+  intros nf w Y HY Hne. pose proof (unpack_rows_lengths nf w Y HY) as HL.
+  destruct Y as [|r Y]; [congruence|].
+  cbn [unpack_rows map rows_width] in *. inversion HL; subst. assumption.
+Qed.
+
+Lemma colsum_cpp_length : forall nf w Y, rows_ok w Y -> Y <> [] ->
+  length (colsum_cpp (unpack_rows nf Y)) = unpacked_width w nf.
+Proof.
+  intros nf w Y HY Hne. unfold colsum_cpp.
+  rewrite (colsum_len_gen (fun a b => wrap64 (a + b))); rewrite repeat_length;
+    rewrite (unpack_rows_width nf w Y HY Hne); [reflexivity|].
+  now apply unpack_rows_lengths.
+Qed.
+
+Lemma colsum_facts : forall nf w Y, rows_ok w Y -> Y <> [] ->
   zlen Y < 2 ^ 63 ->
   let U := unpack_rows nf Y in
   colsum_cpp U = colsum_py U /\ okls (zlen Y) (colsum_py U) /\
-  length (colsum_py U) = (8 * w)%nat.
+  length (colsum_py U) = unpacked_width w nf.
 Proof.
-  intros nf w Y Hnf HY Hne Hlen U.
+  intros nf w Y HY Hne Hlen U.
   assert (ZU : zlen U = zlen Y) by (unfold zlen, U, unpack_rows; now rewrite map_length).
-  assert (HW : rows_width U = (8 * w)%nat).
-  { pose proof (unpack_rows_lengths nf w Y Hnf HY) as HL. fold U in HL.
-    destruct Y as [|r Y]; [congruence|].
-    unfold U in *. cbn [unpack_rows map rows_width] in *.
-    inversion HL; subst. assumption. }
+  assert (HW : rows_width U = unpacked_width w nf) by now apply unpack_rows_width.
   assert (P1 : 1 <= zlen Y).
   { destruct Y; [congruence|]. unfold zlen. cbn [length]. lia. }
   change (2 ^ 63) with 9223372036854775808 in Hlen.
@@ -732,7 +753,7 @@ Proof.
   - unfold colsum_cpp, colsum_py. split; [exact E|split].
     + unfold okls. eapply Forall_impl; [|exact F]. cbv beta. rewrite ZU. lia.
     + rewrite colsum_len; rewrite repeat_length; [exact HW|].
-      rewrite HW. apply (unpack_rows_lengths nf w Y Hnf HY).
+      rewrite HW. apply (unpack_rows_lengths nf w Y HY).
 Qed.
 
 (* --- the search after the centroid --- *)
@@ -763,7 +784,8 @@ Lemma cpp_most_dissimilar_unfold : forall aligned nf Y,
   | None => None
   | Some U => match cpp_centroid (colsum_cpp U) (zlen Y) true with
               | None => None
-              | Some cen => Some (cpp_tail aligned Y cen)
+              | Some cen => if negb (Nat.eqb (length cen) (rows_width Y)) then None
+                            else Some (cpp_tail aligned Y cen)
               end
   end.
 Proof. reflexivity. Qed.
@@ -823,23 +845,56 @@ Proof.
   cbv zeta in *. rewrite E2. reflexivity.
 Qed.
 
+Lemma rows_ok_width : forall w Y, rows_ok w Y -> Y <> [] -> rows_width Y = w.
+Proof.
+  intros w [|r Y] HY Hne; [congruence|]. inversion HY as [|? ? [_ L] _]; subst.
+  reflexivity.
+Qed.
+
+Lemma centroid_packed_length : forall ls n,
+  length (centroid_packed ls n) = Nat.div (length ls + 7) 8.
+Proof.
+  intros ls n. unfold centroid_packed. rewrite pack_length.
+  unfold centroid_fpv, centroid_vals. destruct (n <=? 1); now rewrite !map_length.
+Qed.
+
 Theorem K7_most_dissimilar : forall aligned nf (w : nat) Y,
   Y <> [] -> rows_ok w Y -> zlen Y < 2 ^ 63 -> nf_ok w nf ->
   cpp_most_dissimilar aligned nf Y = Some (py_most_dissimilar_packed nf Y).
 Proof.
   intros aligned nf w Y Hne HY Hlen Hnf.
   rewrite cpp_most_dissimilar_unfold, py_most_dissimilar_unfold.
-  rewrite (cpp_unpack_2d_rows nf w Y Hnf HY).
-  destruct (colsum_facts nf w Y Hnf HY Hne Hlen) as (E & Hok & Lls).
+  rewrite (cpp_unpack_2d_rows nf w Y Hnf).
+  destruct (colsum_facts nf w Y HY Hne Hlen) as (E & _ & Lls).
   cbv zeta in *. rewrite E.
-  rewrite K3b_centroid_packed.
-  - f_equal. apply (tail_eq aligned w); try assumption.
-    + apply pack_bytes_range.
-    + unfold centroid_packed. rewrite pack_length.
-      unfold centroid_fpv, centroid_vals.
-      destruct (zlen Y <=? 1); rewrite !map_length, Lls; lia.
-  - split; [unfold zlen; lia|exact Hlen].
-  - exact Hok.
-  - unfold zlen. rewrite Lls. lia.
+  rewrite cpp_centroid_packed_total.
+  assert (Lc : length (centroid_packed (colsum_py (unpack_rows nf Y)) (zlen Y)) = w).
+  { rewrite centroid_packed_length, Lls. now apply unpacked_width_packed. }
+  rewrite Lc, (rows_ok_width w Y HY Hne), Nat.eqb_refl. cbn [negb].
+  f_equal. apply (tail_eq aligned w); try assumption.
+  apply pack_bytes_range.
 Qed.
 
+(* the shape check: a feature count whose packed width is not the row width is rejected *)
+Theorem K7_most_dissimilar_shape : forall aligned n (w : nat) Y,
+  Y <> [] -> rows_ok w Y -> 0 <= n -> (n + 7) / 8 <> Z.of_nat w ->
+  cpp_most_dissimilar aligned (Some n) Y = None.
+Proof.
+  intros aligned n w Y Hne HY Hn Hw.
+  rewrite cpp_most_dissimilar_unfold.
+  rewrite (K2_unpack_2d (Some n) Y Hn).
+  rewrite cpp_centroid_packed_total.
+  rewrite centroid_packed_length, (colsum_cpp_length (Some n) w Y HY Hne).
+  rewrite (rows_ok_width w Y HY Hne).
+  unfold unpacked_width.
+  destruct (Nat.eqb_spec (Nat.div (Z.to_nat n + 7) 8) w) as [E|E]; [|reflexivity].
+  exfalso. apply Hw. lia.
+Qed.
+
+(* negative feature count: the unpacking throws *)
+Theorem K7_most_dissimilar_negative : forall aligned n Y, Y <> [] -> n < 0 ->
+  cpp_most_dissimilar aligned (Some n) Y = None.
+Proof.
+  intros aligned n Y Hne Hn. rewrite cpp_most_dissimilar_unfold.
+  now rewrite K2_unpack_2d_undefined.
+Qed.
